@@ -364,7 +364,32 @@ def run_C20(tier, seed):
                                    f"{i + 1} of the animation is not frame {i + 1}", frames=n, position=i + 1)
                         break
             else:
-                # naming changed: fall back to the recorded drawing order vs sorted order by mtime-independent names
                 names = sorted(os.listdir(td))
-                res.notes.append(f"frame naming is not frame_%02d.png any more ({names[:2]}); order checked by content only")
+                res.notes.append(f"frame naming is not frame_%02d.png ({names[:2]}); order checked by the sparse test below")
+    # frames of very long histories: the real _save_frame / _load_images on a sparse set of frame numbers (the order in
+    # which _load_images returns them must be the numeric order whatever the naming scheme)
+    numbers = [1, 2, 9, 10, 11, 99, 100, 101, 999, 1000, 1001, 9999, 10000, 10001, 123456]
+    res.count("frames-loaded-in-history-order")
+    res.case(("sparse-frames", tuple(numbers)))
+    with tempfile.TemporaryDirectory() as td:
+        import imageio
+        pics = {}
+        for k in numbers:
+            fig = plt.figure(figsize=(0.6, 0.2), dpi=50)
+            fig.text(0.02, 0.3, str(k), fontsize=6)
+            before = set(os.listdir(td))
+            gg._save_frame(fig, td, k)
+            new = set(os.listdir(td)) - before
+            if len(new) != 1:
+                res.breach("frames-loaded-in-history-order", f"_save_frame({k}) wrote {sorted(new)}", frame=k)
+                break
+            pics[k] = np.asarray(imageio.imread(os.path.join(td, new.pop())))
+        else:
+            loaded = gg._load_images(td)
+            for pos, k in enumerate(numbers):
+                if pos >= len(loaded) or not np.array_equal(np.asarray(loaded[pos]), pics[k]):
+                    res.breach("frames-loaded-in-history-order", f"with frames {numbers} on disk the image at position "
+                               f"{pos + 1} is not frame {k}: frames of a history of more than {numbers[max(pos - 1, 0)]} "
+                               "operations come out of order", frames=numbers, position=pos + 1)
+                    break
     return res
